@@ -1,181 +1,174 @@
-(* Proofs/StrLeafEntity.v — Model/Entity.v: totality, bounds, UTF-8 validity, lookup = first match. *)
+(* Proofs/StrLeafEntity.v — Model/Entity.v: totality, bounds, UTF-8 validity of unescape / unescape_html. *)
 From Coq Require Import List NArith Bool Lia Arith.
 From Coq Require Import Strings.String.
 From V Require Import Base.Bytes Base.Res Gen.StrLeafGen Gen.Entities Spec.EscapeSpec Proofs.EscapeProofs.
-From V Require Import Model.Entity.
+From V Require Import Model.Entity Proofs.StrLeafEntityNum.
 Import ListNotations.
 Local Open Scope string_scope.
 Local Open Scope list_scope.
 
-(* ------------------------------------------------------------------ digits *)
-Definition hexval_ok (b : byte) : bool :=
-  if isxdigit b then match hex_digit_value b with Ok v => (v <? 16)%N | _ => false end else true.
-Lemma hexval_ok_all : forall b, hexval_ok b = true.
-Proof. apply forall_bytes. vm_compute. reflexivity. Qed.
-
-Lemma hex_digit_value_total b : isxdigit b = true -> exists v, hex_digit_value b = Ok v.
+(* ------------------------------------------------------------------ named entities *)
+Lemma named_scan_spec : forall left s i j, named_scan s i left = Some j ->
+  i <= j /\ j < i + left /\ j - i < List.length s /\ nth (j - i) s x00 = x3b.
 Proof.
-  intro H. pose proof (hexval_ok_all b) as K. unfold hexval_ok in K. rewrite H in K.
-  destruct (hex_digit_value b); try discriminate. eexists; reflexivity.
+  induction left as [|l IH]; intros s i j H; destruct s as [|b r]; cbn [named_scan] in H; try discriminate.
+  destruct (beqb b x20); [discriminate|].
+  destruct (beqb b x3b) eqn:E.
+  - inversion H; subst. rewrite Nat.sub_diag. cbn. apply beqb_eq in E. repeat split; try lia. exact E.
+  - apply IH in H. destruct H as [H1 [H2 [H3 H4]]].
+    replace (j - i) with (S (j - S i)) by lia. cbn [nth List.length]. repeat split; try lia. exact H4.
 Qed.
 
-Definition xdigit_ascii (b : byte) : bool := implb (isxdigit b || sl_isdigit b) (is_ascii b).
-Lemma xdigit_ascii_all : forall b, xdigit_ascii b = true.
-Proof. apply forall_bytes. vm_compute. reflexivity. Qed.
-Lemma isxdigit_ascii b : isxdigit b = true -> is_ascii b = true.
-Proof. intro H. pose proof (xdigit_ascii_all b) as K. unfold xdigit_ascii in K. rewrite H in K. exact K. Qed.
-Lemma isdigit_ascii b : sl_isdigit b = true -> is_ascii b = true.
-Proof. intro H. pose proof (xdigit_ascii_all b) as K. unfold xdigit_ascii in K. rewrite H, orb_true_r in K. exact K. Qed.
-
-Lemma hex_digits_spec : forall s n cp, exists pre rest cp',
-  hex_digits s n cp = Ok (n + List.length pre, cp', rest) /\ s = pre ++ rest /\ forallb is_ascii pre = true.
+Lemma firstn_S_nth_local : forall (l : bytes) n, n < List.length l -> firstn (S n) l = firstn n l ++ [nth n l x00].
 Proof.
-  induction s as [|b r IH]; intros n cp.
-  - exists [], [], cp. cbn. rewrite Nat.add_0_r. auto.
-  - cbn [hex_digits]. destruct (isxdigit b) eqn:E.
-    + destruct (hex_digit_value_total b E) as [v Hv]. rewrite Hv. cbn [bind].
-      destruct (IH (S n) (N.min (cp * 16 + v) entity_cp_cap)) as [pre [rest [cp' [H1 [H2 H3]]]]].
-      exists (b :: pre), rest, cp'. rewrite H1. cbn [List.length app forallb]. rewrite H3, (isxdigit_ascii b E).
-      split; [f_equal; f_equal; f_equal; lia|]. split; [f_equal; exact H2 | reflexivity].
-    + exists [], (b :: r), cp. cbn. rewrite Nat.add_0_r. auto.
+  induction l as [|x l IH]; intros n H; [simpl in H; lia|].
+  destruct n; [reflexivity|]. cbn [firstn nth app]. f_equal. apply IH. simpl in H. lia.
 Qed.
 
-Lemma dec_digits_spec : forall s n cp, exists pre rest cp',
-  dec_digits s n cp = (n + List.length pre, cp', rest) /\ s = pre ++ rest /\ forallb is_ascii pre = true.
+Lemma nth_skipn_local : forall (l : bytes) k n, nth n (skipn k l) x00 = nth (k + n) l x00.
 Proof.
-  induction s as [|b r IH]; intros n cp.
-  - exists [], [], cp. cbn. rewrite Nat.add_0_r. auto.
-  - cbn [dec_digits]. destruct (sl_isdigit b) eqn:E.
-    + destruct (IH (S n) (N.min (cp * 10 + (bN b - 48)) entity_cp_cap)) as [pre [rest [cp' [H1 [H2 H3]]]]].
-      exists (b :: pre), rest, cp'. rewrite H1. cbn [List.length app forallb]. rewrite H3, (isdigit_ascii b E).
-      split; [f_equal; f_equal; lia|]. split; [f_equal; exact H2 | reflexivity].
-    + exists [], (b :: r), cp. cbn. rewrite Nat.add_0_r. auto.
+  induction l as [|x l IH]; intros k n.
+  - rewrite skipn_nil. destruct n, k; reflexivity.
+  - destruct k; [reflexivity|]. cbn [skipn plus nth]. apply IH.
 Qed.
 
-(* ------------------------------------------------------------------ numeric result is valid UTF-8 *)
-Definition nr_ok (c : N) : bool := utf8_valid (numeric_result c).
-Definition r256 : list N := map N.of_nat (seq 0 256).
-Definition r17 : list N := map N.of_nat (seq 0 17).
-Definition nr_check : bool :=
-  forallb (fun p => forallb (fun h => forallb (fun l => nr_ok (p * 65536 + h * 256 + l)%N) r256) r256) r17.
-Lemma nr_check_ok : nr_check = true.
-Proof. vm_compute. reflexivity. Qed.
+Definition entity_result_ok (text : bytes) (r : option (bytes * nat)) : Prop :=
+  match r with
+  | None => True
+  | Some (chs, n) =>
+    1 <= n /\ n <= List.length text /\ n <= entity_max_length /\ utf8_valid chs = true /\
+    forallb is_ascii (firstn n text) = true
+  end.
 
-Lemma in_range_list k (x : N) : (x < N.of_nat k)%N -> In x (map N.of_nat (seq 0 k)).
+Lemma named_ok text : entity_result_ok text (named text).
 Proof.
-  intro H. apply in_map_iff. exists (N.to_nat x). split; [apply Nnat.N2Nat.id|]. apply in_seq. lia.
+  unfold named. set (size := Nat.min (List.length text) entity_max_length).
+  destruct (named_scan (skipn entity_min_length text) entity_min_length (size - entity_min_length)) as [j|] eqn:E; [|exact I].
+  destruct (lookup (firstn j text)) as [e|] eqn:L; [|exact I].
+  apply named_scan_spec in E. destruct E as [H1 [H2 [H3 H4]]].
+  apply lookup_ok in L. destruct L as [La Lu].
+  rewrite skipn_length in H3. rewrite nth_skipn_local in H4.
+  unfold entity_min_length in *.
+  assert (j < size) as Hj by lia.
+  assert (j < List.length text /\ j < entity_max_length) as [Hjl Hjm] by (unfold size in Hj; lia).
+  replace (2 + (j - 2)) with j in H4 by lia.
+  cbn [entity_result_ok]. repeat split; try lia; [exact Lu|].
+  rewrite firstn_S_nth_local by exact Hjl. rewrite forallb_app, La, H4. reflexivity.
 Qed.
 
-Lemma nr_ok_small c : (c < 1114112)%N -> nr_ok c = true.
+(* ------------------------------------------------------------------ unescape: totality and bounds *)
+Theorem entity_unescape_total text : exists r, Entity.unescape text = Ok r /\ entity_result_ok text r.
 Proof.
-  intro H. pose proof nr_check_ok as K. unfold nr_check in K. rewrite forallb_forall in K.
-  set (p := (c / 65536)%N). set (m := (c mod 65536)%N). set (h := (m / 256)%N). set (l := (m mod 256)%N).
-  assert (c = p * 65536 + h * 256 + l)%N as E.
-  { pose proof (N.div_mod c 65536) as D1. pose proof (N.div_mod m 256) as D2.
-    unfold p, h, l, m in *. lia. }
-  assert (m < 65536)%N as Hm by (apply N.mod_lt; lia).
-  assert (p < 17)%N as Hp.
-  { unfold p. apply N.div_lt_upper_bound; lia. }
-  assert (h < 256)%N as Hh.
-  { unfold h. apply N.div_lt_upper_bound; lia. }
-  assert (l < 256)%N as Hl by (apply N.mod_lt; lia).
-  specialize (K p (in_range_list 17 p Hp)). rewrite forallb_forall in K.
-  specialize (K h (in_range_list 256 h Hh)). rewrite forallb_forall in K.
-  specialize (K l (in_range_list 256 l Hl)). rewrite <- E in K. exact K.
+  unfold Entity.unescape.
+  destruct text as [|t0 [|t1 [|t2 tl]]]; try (eexists; split; [reflexivity | apply named_ok]).
+  set (text := t0 :: t1 :: t2 :: tl).
+  destruct (beqb t0 x23) eqn:E0; [|eexists; split; [reflexivity | apply named_ok]].
+  apply beqb_eq in E0.
+  destruct (sl_isdigit t1) eqn:Ed.
+  - (* decimal *)
+    destruct (dec_digits_spec (skipn 1 text) 0 0%N) as [pre [rest [cp [H1 [H2 H3]]]]].
+    rewrite H1. cbn [bind]. cbn [plus].
+    destruct rest as [|c rest']; [eexists; split; [reflexivity | apply named_ok]|].
+    destruct (beqb c x3b && in_digit_limit (beqb t1 x78 || beqb t1 x58) (List.length pre)) eqn:Ec;
+      [|eexists; split; [reflexivity | apply named_ok]].
+    eexists; split; [reflexivity|]. cbn [entity_result_ok].
+    apply andb_true_iff in Ec. destruct Ec as [Ec El]. apply beqb_eq in Ec. subst c.
+    assert (List.length pre <= 7) as Hn.
+    { unfold in_digit_limit, entity_hex_digits, entity_dec_digits in El.
+      apply orb_true_iff in El. destruct El as [El|El].
+      - apply andb_true_iff in El. destruct El as [_ El]. apply Nat.leb_le in El. lia.
+      - apply andb_true_iff in El. destruct El as [_ El]. apply Nat.leb_le in El. lia. }
+    unfold text in H2. cbn in H2.
+    assert (List.length (t1 :: t2 :: tl) = List.length pre + S (List.length rest')) as Hlen.
+    { rewrite H2, app_length. reflexivity. }
+    repeat split.
+    + lia.
+    + unfold text. cbn [List.length] in *. lia.
+    + unfold entity_max_length. lia.
+    + apply numeric_result_utf8.
+    + unfold text. rewrite H2. cbn [plus]. rewrite !firstn_cons.
+      replace (S (List.length pre)) with (List.length pre + 1) by lia.
+      rewrite firstn_app_2. cbn [firstn forallb]. rewrite forallb_app, H3. subst t0. reflexivity.
+  - destruct (beqb t1 x78 || beqb t1 x58) eqn:Ex.
+    + (* hexadecimal *)
+      destruct (hex_digits_spec (skipn 2 text) 0 0%N) as [pre [rest [cp [H1 [H2 H3]]]]].
+      rewrite H1. cbn [bind]. cbn [plus].
+      destruct rest as [|c rest']; [eexists; split; [reflexivity | apply named_ok]|].
+      destruct (beqb c x3b && in_digit_limit true (List.length pre)) eqn:Ec;
+        [|eexists; split; [reflexivity | apply named_ok]].
+      eexists; split; [reflexivity|]. cbn [entity_result_ok].
+      apply andb_true_iff in Ec. destruct Ec as [Ec El]. apply beqb_eq in Ec. subst c.
+      assert (List.length pre <= 7) as Hn.
+      { unfold in_digit_limit, entity_hex_digits, entity_dec_digits in El.
+        apply orb_true_iff in El. destruct El as [El|El].
+        - apply andb_true_iff in El. destruct El as [_ El]. apply Nat.leb_le in El. lia.
+        - apply andb_true_iff in El. destruct El as [_ El]. apply Nat.leb_le in El. lia. }
+      unfold text in H2. cbn in H2.
+      assert (List.length (t2 :: tl) = List.length pre + S (List.length rest')) as Hlen.
+      { rewrite H2, app_length. reflexivity. }
+      assert (is_ascii t1 = true) as Ha1.
+      { apply orb_true_iff in Ex. destruct Ex as [Ex|Ex]; apply beqb_eq in Ex; subst t1; reflexivity. }
+      repeat split.
+      * lia.
+      * unfold text. cbn [List.length] in *. lia.
+      * unfold entity_max_length. lia.
+      * apply numeric_result_utf8.
+      * unfold text. rewrite H2. cbn [plus]. rewrite !firstn_cons.
+        replace (S (List.length pre)) with (List.length pre + 1) by lia.
+        rewrite firstn_app_2. cbn [firstn forallb]. rewrite forallb_app, H3, Ha1. subst t0. reflexivity.
+    + (* neither: i = 0, text[0] is the number sign *)
+      cbn [bind]. unfold text at 1. subst t0. cbn [beqb andb]. 
+      eexists; split; [reflexivity | apply named_ok].
 Qed.
 
-Definition fffd : bytes := Eval compute in encode_utf8 65533.
-Lemma numeric_result_big c : (1114112 <= c)%N -> numeric_result c = fffd.
+(* ------------------------------------------------------------------ unescape_html *)
+Lemma html_loop_skip : forall s k, unescape_html_loop s k = unescape_html_loop (skipn k s) 0.
 Proof.
-  intro H. unfold numeric_result, fix_codepoint.
-  assert ((entity_cp_limit <=? c)%N = true) as E by (apply N.leb_le; exact H).
-  rewrite E, !orb_true_r. reflexivity.
+  induction s as [|c r IH]; intros k.
+  - rewrite skipn_nil. destruct k; reflexivity.
+  - destruct k; [reflexivity|]. cbn [unescape_html_loop skipn]. apply IH.
 Qed.
 
-Theorem numeric_result_utf8 c : utf8_valid (numeric_result c) = true.
+Lemma utf8_run_app_valid a : forall st b, utf8_run st a = true -> utf8_run st (a ++ b) = utf8_run U0 b.
 Proof.
-  destruct (N.ltb c 1114112) eqn:E.
-  - apply N.ltb_lt in E. apply (nr_ok_small c E).
-  - apply N.ltb_ge in E. rewrite numeric_result_big by exact E. reflexivity.
+  induction a as [|x a IH]; intros st b H.
+  - cbn in H. destruct st; try discriminate. reflexivity.
+  - cbn [app utf8_run] in *. destruct (ustep st x); [apply IH, H | discriminate].
 Qed.
 
-(* value 0, the surrogate interval of the code and everything from 0x110000 up give U+FFFD *)
-Theorem numeric_result_replacement c :
-  (c = 0 \/ (55296 <= c <= 57344) \/ 1114112 <= c)%N -> numeric_result c = fffd.
+Theorem unescape_html_total_utf8 : forall n s, List.length s <= n ->
+  exists o, unescape_html_loop s 0 = Ok o /\
+            forall st, utf8_run st s = true -> utf8_run st o = true.
 Proof.
-  intros [H | [H | H]].
-  - subst. reflexivity.
-  - unfold numeric_result, fix_codepoint.
-    assert (((entity_sur_lo <=? c) && (c <=? entity_sur_hi))%N = true) as E.
-    { apply andb_true_iff. split; apply N.leb_le; unfold entity_sur_lo, entity_sur_hi; lia. }
-    rewrite E, orb_true_r. reflexivity.
-  - apply numeric_result_big. exact H.
+  induction n as [|n IH]; intros s Hn.
+  - destruct s; [|simpl in Hn; lia]. exists []. split; [reflexivity | auto].
+  - destruct s as [|c r]; [exists []; split; [reflexivity | auto]|].
+    cbn [List.length] in Hn. cbn [unescape_html_loop].
+    destruct (beqb c x26) eqn:Ec.
+    + apply beqb_eq in Ec. subst c.
+      destruct (entity_unescape_total r) as [e [He Hok]]. rewrite He. cbn [bind].
+      destruct e as [[chs k]|].
+      * cbn [entity_result_ok] in Hok. destruct Hok as [Hk1 [Hk2 [_ [Hu Ha]]]].
+        rewrite html_loop_skip.
+        destruct (IH (skipn k r)) as [o [Ho Hv]]; [rewrite skipn_length; lia|].
+        rewrite Ho. cbn [res_map]. exists (chs ++ o). split; [reflexivity|].
+        intros st H. cbn [utf8_run] in H.
+        rewrite (ustep_ascii st x26 eq_refl) in H. destruct st; try discriminate.
+        rewrite (utf8_run_app_valid chs U0 o Hu). apply Hv.
+        rewrite <- (firstn_skipn k r) in H. rewrite utf8_run_ascii_prefix in H by exact Ha. exact H.
+      * destruct (IH r) as [o [Ho Hv]]; [lia|]. rewrite Ho. cbn [res_map].
+        exists (x26 :: o). split; [reflexivity|]. intros st H. cbn [utf8_run] in *.
+        destruct (ustep st x26); [apply Hv, H | discriminate].
+    + destruct (IH r) as [o [Ho Hv]]; [lia|]. rewrite Ho. cbn [res_map].
+      exists (c :: o). split; [reflexivity|]. intros st H. cbn [utf8_run] in *.
+      destruct (ustep st c); [apply Hv, H | discriminate].
 Qed.
 
-(* ------------------------------------------------------------------ the table *)
-Definition bucket_ok (b : byte) : bool :=
-  forallb (fun e => forallb is_ascii (fst e) && utf8_valid (snd e)) (entity_bucket b)
-  && match entity_bucket b with [] => true | _ => is_ascii b end.
-Lemma bucket_ok_all : forall b, bucket_ok b = true.
-Proof. apply forall_bytes. vm_compute. reflexivity. Qed.
+Theorem unescape_html_total s : exists o, unescape_html s = Ok o.
+Proof. destruct (unescape_html_total_utf8 (List.length s) s (le_n _)) as [o [H _]]. exists o. exact H. Qed.
 
-Lemma assoc_bytes_in k l c : assoc_bytes k l = Some c -> In (k, c) l.
+Theorem unescape_html_utf8 s o : unescape_html s = Ok o -> utf8_valid s = true -> utf8_valid o = true.
 Proof.
-  induction l as [|[n c'] r IH]; [discriminate|]. cbn [assoc_bytes].
-  destruct (bytes_eqb k n) eqn:E.
-  - intro H. inversion H; subst. apply bytes_eqb_eq in E. subst. left. reflexivity.
-  - intro H. right. apply IH, H.
-Qed.
-
-Lemma lookup_ok t c : lookup t = Some c -> forallb is_ascii t = true /\ utf8_valid c = true.
-Proof.
-  destruct t as [|b r]; [discriminate|]. cbn [lookup]. intro H. apply assoc_bytes_in in H.
-  pose proof (bucket_ok_all b) as K. unfold bucket_ok in K. apply andb_true_iff in K. destruct K as [K1 K2].
-  rewrite forallb_forall in K1. specialize (K1 _ H). cbn [fst snd] in K1. apply andb_true_iff in K1.
-  destruct K1 as [Ka Ku]. destruct (entity_bucket b); [contradiction|].
-  cbn [forallb]. rewrite K2, Ka. auto.
-Qed.
-
-(* lookup = the first match of the flat table, in table order (what `ENTITIES.iter().find(..)` returns) *)
-Definition bucket_is_filter (b : byte) : bool :=
-  let want := flat_map (fun e => match fst e with
-                                 | x :: r => if beqb x b then [(r, snd e)] else []
-                                 | [] => [] end) entity_table in
-  (fix eq (a c : list (bytes * bytes)) : bool :=
-     match a, c with
-     | [], [] => true
-     | (k1, v1) :: a', (k2, v2) :: c' => bytes_eqb k1 k2 && bytes_eqb v1 v2 && eq a' c'
-     | _, _ => false
-     end) (entity_bucket b) want.
-Lemma bucket_is_filter_all : forall b, bucket_is_filter b = true.
-Proof. apply forall_bytes. vm_compute. reflexivity. Qed.
-
-Lemma pairs_eq_eq : forall a c,
-  (fix eq (a c : list (bytes * bytes)) : bool :=
-     match a, c with
-     | [], [] => true
-     | (k1, v1) :: a', (k2, v2) :: c' => bytes_eqb k1 k2 && bytes_eqb v1 v2 && eq a' c'
-     | _, _ => false
-     end) a c = true -> a = c.
-Proof.
-  induction a as [|[k1 v1] a IH]; intros [|[k2 v2] c] H; try discriminate; [reflexivity|].
-  apply andb_true_iff in H. destruct H as [H H3]. apply andb_true_iff in H. destruct H as [H1 H2].
-  apply bytes_eqb_eq in H1. apply bytes_eqb_eq in H2. subst. f_equal. apply IH, H3.
-Qed.
-
-Lemma beqb_sym_local a b : beqb a b = beqb b a.
-Proof. unfold beqb. apply N.eqb_sym. Qed.
-
-Lemma assoc_filter b r : forall tbl,
-  assoc_bytes r (flat_map (fun e => match fst e with
-                                    | x :: r' => if beqb x b then [(r', snd e)] else []
-                                    | [] => [] end) tbl)
-  = assoc_bytes (b :: r) tbl.
-Proof.
-  induction tbl as [|[k v] tbl IH]; [reflexivity|].
-  cbn [flat_map fst snd assoc_bytes]. destruct k as [|x k'].
-  - cbn [app bytes_eqb]. exact IH.
-  - cbn [bytes_eqb]. rewrite (beqb_sym_local b x). destruct (beqb x b) eqn:E.
-    + cbn [app assoc_bytes andb]. destruct (bytes_eqb r k'); [reflexivity | exact IH].
-    + cbn [app andb]. exact IH.
+  intros H V. destruct (unescape_html_total_utf8 (List.length s) s (le_n _)) as [o' [H' Hv]].
+  unfold unescape_html in H. rewrite H' in H. inversion H; subst. apply Hv, V.
 Qed.
